@@ -11,3 +11,5 @@ type Stats struct {
 
 func Available() bool                    { return false }
 func Start(seed int64) (stop func() Stats) { return func() Stats { return Stats{} } }
+
+func Step() {}
